@@ -46,6 +46,14 @@ def run_config(chk, config):
                 if vi == 1:
                     nerr += 1
                     ln = vec_len_of(eng, st, payload)
+                    tgt = st.cells.get(payload.cell) if isinstance(payload, VRef) else payload
+                    if isinstance(tgt, VUnknown) and "havoc" in (tgt.name or ""):
+                        chk.notes.append("undecided clause: Err list of %s was passed to an unmodelled callee; non-emptiness not decided" % name)
+                        continue
+                    if ln is not None and any(x.startswith("len(ret$") or "havoc" in x for x in ln.t):
+                        # list produced by an unmodelled callee: shape unknown, clause undecided (not an alarm)
+                        chk.notes.append("undecided clause: Err list of %s comes out of an unmodelled callee; non-emptiness not decided" % name)
+                        continue
                     if ln is None or not eng.ent(st, c_le(Lin.const(1), ln)):
                         bad = (st, ln)
                 elif vi is None:
